@@ -147,6 +147,8 @@ for ci in range(ncases):
         ps = t.get_parameters(trainable_only=False)
         if ps and rng.random() < 0.85:
             j = rng.randrange(len(ps))
+            if np.ndim(ps[j]) > 0 or np.iscomplexobj(ps[j]):   # a matrix / diagonal is not an angle: no 2 pi twin
+                continue
             try:
                 tw = t.bind_new_parameters([ps[j] + rng.choice([1, 2, -1, -2, 3]) * TWO_PI], [j])
                 tapes.append(tw)
